@@ -111,7 +111,7 @@ static J gen_world_surface(Chooser &ch)
   const bool near_zero = ch.chance(25);
   if (near_zero) ctr = {{0.0, 0.0}};
   std::vector<std::array<double, 2>> poly = g::star_polygon(ch, fr, ctr, fr.sph ? 4.0 : 300e3, fr.sph ? 12.0 : 900e3, static_cast<int>(ch.range(3, 7)));
-  if (near_zero && ch.flip()) poly[0] = {{0.0, poly[0][1]}};
+  if (near_zero && ch.flip() && poly[0][1] != 0) poly[0] = {{0.0, poly[0][1]}}; // (a vertex level with the centre would land on the centre itself)
   c["polygon"] = g::coords_json(poly);
   c["type"] = ch.pick<std::string>({"continental plate", "oceanic plate", "mantle layer"});
   c["which"] = ch.flip() ? "max depth" : "min depth";
@@ -230,6 +230,19 @@ static Result check_world_surface(const J &c)
   J cm = J::obj(); cm["model"] = "uniform"; cm["compositions"] = J::arr({J(0)});
   feat["composition models"] = J::arr({cm});
   root["features"] = J::arr({feat});
+  // nodes on the boundary are probed a hair towards the centre the polygon was built around; that needs the centre strictly inside
+  // (a centre on a corner or an edge - which the generator no longer produces - puts such probes on the boundary itself, where
+  // membership is rounding)
+  {
+    const J &poly = c.at("polygon");
+    for (size_t i = 0; i < poly.size(); ++i)
+      {
+        const J &a = poly[i], &b = poly[(i + 1) % poly.size()];
+        const double ex = b[0].num() - a[0].num(), ey = b[1].num() - a[1].num(), px = c.at("cx").num() - a[0].num(), py = c.at("cy").num() - a[1].num();
+        const double cr = ex * py - ey * px, dt = ex * px + ey * py, l2 = ex * ex + ey * ey;
+        if (std::fabs(cr) <= 1e-9 * l2 && dt >= -1e-9 * l2 && dt <= (1 + 1e-9) * l2) { r.discard = true; r.msg = "centre of the polygon on its boundary"; return r; }
+      }
+  }
   auto W = make_world(root.dump());
   double vmin = 1e300, vmax = -1e300;
   for (auto &n : nodes) { vmin = std::min(vmin, n[2]); vmax = std::max(vmax, n[2]); }
